@@ -209,6 +209,15 @@ func c01NegotiateFeatures(c *cx, nf *eng.Fn, call *ast.CallExpr) (firstParam str
 					firstParam = params[0]
 				}
 				c.r.Check("C01.4", nf, "forced STARTTLS selection [first list]", "G: dominated by exactly one boolean parameter (the first-features-list indicator)", d.Node.Pos(), len(params) == 1, fmt.Sprintf("dominating boolean parameters: %v", params))
+				// the exemption covers "was advertised" only: the forced attempt is
+				// still subject to the feature's own prerequisites and must be
+				// negotiable at all (a configured STARTTLS-namespace feature with
+				// Necessary bits, or an informational one with a nil Negotiate)
+				if feat != nil {
+					fn := nf.Norm(feat, &d.At)
+					c.dom("C01.4", nf, d.Node, "forced STARTTLS selection [negotiable]", []string{"!eq(" + fn + ".Negotiate,nil)"}, initRole)
+					c.dom("C01.4", nf, d.Node, "forced STARTTLS selection [prerequisites hold now]", []string{"all(*.state," + fn + ".Necessary)", "none(*.state," + fn + ".Prohibited)"}, initRole)
+				}
 				forcedAtoms = append([]string{}, pats[:2]...)
 				forcedAtoms = append(forcedAtoms, sec...)
 				forcedAtoms = append(forcedAtoms, params...)
@@ -365,6 +374,72 @@ func c01NegotiateFeatures(c *cx, nf *eng.Fn, call *ast.CallExpr) (firstParam str
 	}
 	c.r.Floor("C01.7", "state writes in "+nf.Short, nw, 1)
 
+	// ---- C01.9 the Ready bit never comes from a feature ---------------------------
+	// whether the session is established is decided from what was advertised
+	// (the licences below); a feature's own mask carrying Ready would end the
+	// negotiation with mandatory features left and, together with a new stream
+	// layer, without the restart
+	if as, ok := g.Parent(call).(*ast.AssignStmt); ok && len(as.Lhs) == 3 {
+		if mid, ok := as.Lhs[0].(*ast.Ident); ok {
+			mv := nf.Info().ObjectOf(mid)
+			isClear := func(q eng.Point, n ast.Node) bool {
+				a, ok := n.(*ast.AssignStmt)
+				if !ok || len(a.Lhs) != 1 || len(a.Rhs) != 1 {
+					return false
+				}
+				l, ok := ast.Unparen(a.Lhs[0]).(*ast.Ident)
+				if !ok || nf.Info().ObjectOf(l) != mv {
+					return false
+				}
+				switch a.Tok {
+				case token.AND_NOT_ASSIGN:
+					v, okc := nf.ConstInt(a.Rhs[0])
+					return okc && v&4 != 0
+				case token.ASSIGN:
+					be, ok := ast.Unparen(a.Rhs[0]).(*ast.BinaryExpr)
+					if !ok || be.Op != token.AND_NOT {
+						return false
+					}
+					x, okx := ast.Unparen(be.X).(*ast.Ident)
+					v, okc := nf.ConstInt(be.Y)
+					return okx && nf.Info().ObjectOf(x) == mv && okc && v&4 != 0
+				}
+				return false
+			}
+			mentions := func(n ast.Node) bool {
+				found := false
+				ast.Inspect(n, func(x ast.Node) bool {
+					if idn, ok := x.(*ast.Ident); ok && nf.Info().ObjectOf(idn) == mv {
+						found = true
+					}
+					return !found
+				})
+				return found
+			}
+			nUse := 0
+			for _, w := range nf.FieldWrites("xmpp.Session.state") {
+				if w.RHS == nil || !mentions(w.RHS) {
+					continue
+				}
+				wpt, okw := g.Where(w.Stmt)
+				if !okw || !g.Reachable(g.After(callPt), wpt, nil, nil) {
+					continue
+				}
+				nUse++
+				c.r.Check("C01.9", nf, "feature mask applied to the state without Ready", "O: between Negotiate and s.state |= mask the Ready bit is cleared from the feature's mask", w.Stmt.Pos(), g.MustPassBefore(g.After(callPt), wpt, isClear, nil), "a feature that returns Ready in its mask sets the session's Ready bit: negotiation ends although mandatory features (or a restart) are outstanding")
+			}
+			for _, rs := range g.Returns {
+				rpt, _ := g.Where(rs)
+				if len(rs.Results) == 0 || !mentions(rs.Results[0]) || g.RetKindOf(rs) == eng.RetError || !g.Reachable(g.After(callPt), rpt, nil, nil) {
+					continue
+				}
+				nUse++
+				c.r.Check("C01.9", nf, "feature mask returned without Ready", "O: between Negotiate and the return of its mask the Ready bit is cleared (Ready is added only by the licences)", rs.Pos(), g.MustPassBefore(g.After(callPt), rpt, isClear, nil), "a feature that returns Ready in its mask makes the negotiator report the session established")
+			}
+			c.r.Floor("C01.9", "uses of the feature's mask", nUse, 2)
+		}
+	}
+
 	// ---- C01.9 Ready licences -----------------------------------------------------
 	notForced := ""
 	if len(forcedAtoms) > 0 {
@@ -391,6 +466,13 @@ func c01NegotiateFeatures(c *cx, nf *eng.Fn, call *ast.CallExpr) (firstParam str
 		}
 		// e produces the Ready bit; find the statement
 		st := stmtOf(nf, e)
+		// ... unless it is the operand that is cleared (x &^ Ready, x &^= Ready)
+		if a, ok := st.(*ast.AssignStmt); ok && a.Tok == token.AND_NOT_ASSIGN {
+			return true
+		}
+		if be, ok := g.Parent(e).(*ast.BinaryExpr); ok && be.Op == token.AND_NOT && be.Y == e {
+			return true
+		}
 		pt, okp := g.Where(st)
 		if !okp {
 			return false
